@@ -14,6 +14,8 @@ from ..expr import show, walk
 from ..pathcond import PathA, calls_to, field_stores
 from . import C03, C05
 
+from ..roles import upvar_index  # noqa: E402
+
 LEVEL = "other"
 USL = CONN + "::update_stall_latch"
 USP = CONN + "::update_silence_pull"
@@ -297,7 +299,7 @@ def d7_release_reads_own_inbound_only(ctx):
         for a in t["args"]:
             v = fa.val_operand(a, (bb, len(pce.blocks[bb]["stmts"])))
             broadcast = any(is_call(x, name_contains="<impl [T]>::iter_mut") for x in walk(v)) or \
-                (v[0] == "upvar" and pce.upvar_names.get(v[1]) == "connections")
+                (v[0] == "upvar" and v[1] == upvar_index(pce, "connections"))
             if broadcast:
                 for cid in eff._callee_ids(fr):
                     roots.add(cid)
